@@ -4,6 +4,7 @@ import (
 	"context"
 	"fmt"
 	"sort"
+	"strings"
 	"time"
 
 	"github.com/ipfs/ipfs-cluster/api"
@@ -366,6 +367,10 @@ func (w *world) judgeAlloc(op string, ci int, f allocFacts, rmin, rmax int, excl
 	if err != nil {
 		if reachable < rmin {
 			w.run.Probe("refused_not_enough_peers")
+		} else if strings.Contains(err.Error(), "not enough peers to allocate") {
+			// the request fails if fewer than min healthy holders can be reached - and
+			// only then: here enough of them can
+			v("refused_though_satisfiable", "the request was refused (%v) although %d healthy holders can be reached (healthy current %v, usable candidates %v, user-named %v), min is %d", err, reachable, healthyCur, cands, user, rmin)
 		}
 		if isPin && before != nil && !sameStrings(before, w.pinsetKey()) {
 			v("failed_request_changed_pinset", "the request failed (%v) but the pinset changed", err)
